@@ -514,7 +514,7 @@ def c14(ctx):
     behfile = os.path.join(out, "beh.jsonl")
     open(behfile, "w").write("\n".join(sorted(behs)) + "\n")
     rc, o = vlib.go_test(ctx, "ps", "TestPubSub", env={"VERIF_OUT": out, "VERIF_BEH": behfile, "VERIF_PS_RANDOM": 40 if quick else 600,
-                                                        "VERIF_PS_RANDOM_LEN": 30 if quick else 40, "VERIF_PS_CONC": 5 if quick else 60}, timeout=1500)
+                                                        "VERIF_PS_RANDOM_LEN": 30 if quick else 40, "VERIF_PS_CONC": 5 if quick else 60, "VERIF_PS_STALL": 2 if quick else 10}, timeout=1500)
     if crash_or_fail(ctx, rc, o, "driving pub/sub"):
         return vlib.finish(ctx, {"evaluations": 0, "distinct_nontrivial": 0, "rule": rule, "samples": ["crash"]})
     summ = json.load(open(os.path.join(out, "ps.summary.json")))
